@@ -18,7 +18,9 @@ BOUND = ("d in {1,2,3} (standard), {2,3} (adaptive); domains [0,1]^d and one shi
          "dimension-wise: GlobalTrapezoidalGrid boundary on/off, versions {6,2,3,7,8}, rebalancing on/off, lmax in {2,3}; "
          "extend-split version 0: TrapezoidalGrid with boundary (some 2-D configurations: LagrangeGrid p=2, compared with a fresh grid's integrate()), refinements-before-extend in {1,2,3}, automatic_extend_split, split_single_dim; "
          "every stop index of runs with <=8 refinement steps reached freshly by max_evaluations (and some by tolerance), "
-         "plus stops reached by continue_adaptive_refinement after an earlier stop; seeded pseudo-random selection")
+         "plus stops reached by continue_adaptive_refinement after an earlier stop; one stop-keep-continue history with solutions_storage per configuration "
+         "(report stability) and a second/third perform_operation on the same StandardCombi; fixed anchor cases first (incl. extend-split on LagrangeGrid p=2 with "
+         "automatic_extend_split); seeded pseudo-random selection")
 RULE = BOUND + ("; a case is one (strategy configuration, integrand, stopping limits[, resumed from]) ; non-trivial = the scheme has more than one "
                 "component grid and (adaptive) at least one refinement step happened before the stop")
 CLAUSES = {
@@ -26,6 +28,9 @@ CLAUSES = {
                   "(the grid's own quadrature rule for that component grid applied to f by the harness); rel 1e-9 / abs 1e-11",
     "B.scratch.equal": "evaluate_final_combi() on a deep copy of the stopped instance returns the reported value (rel 1e-9 / abs 1e-11)",
     "B.reeval.unchanged": "the same run with reevaluate_at_end=True reports the same value (rel 1e-9 / abs 1e-11)",
+    "B.report.stable": "a value handed to the caller stays what it was when it was reported: the array returned at a stop (kept WITHOUT copying) still equals its "
+                       "copy after continue_adaptive_refinement to a later stop / after a second perform_operation; every entry of solutions_storage equals the "
+                       "combined value observed after the evaluation with that point count (exact equality)",
     "B.nodal.rule": "standard and dimension-wise on nodal grids: sum_i w_i f(p_i) over get_points_and_weights() == reported value (rel 1e-9 / abs 1e-11)",
 }
 
@@ -172,8 +177,62 @@ def check_adaptive(ctx, case):
             c = dc.clone(s)
             with quiet():
                 P, W = c.get_points_and_weights()
+                P2, W2 = c.get_points_and_weights()      # idempotence of the query
+            ctx.check("B.nodal.rule", np.array_equal(np.asarray(W, float), np.asarray(W2, float)) and np.array_equal(np.asarray(P, float), np.asarray(P2, float)),
+                      S_PW, "dimwise-second-query", "get_points_and_weights() asked twice on one instance gives different answers")
             q = dc.quad(f, P, W)
             ctx.check("B.nodal.rule", eq(res, q), S_PW, "dimwise", "reported %s, sum w f(p) over get_points_and_weights() %s" % (res, q))
+
+
+def check_stability(ctx, case):
+    """History clause: run to a first stop with solutions_storage, keep the returned array object, continue to a later stop."""
+    dc = _dc()
+    cfg, comps, st = case["cfg"], case["comps"], case["cfg"]["strategy"]
+    s, eo, f = dc.build(cfg, comps, case.get("ref"))
+    log = dc.instrument(s, f)
+    storage = {}
+    r1 = r2 = None
+    with ctx.guard("B.report.stable", S_PERFORM, st + "-raises"):
+        r1 = dc.run_adaptive(s, eo, case["lmin"], case["lmax"], case["tol"], case["first"], case.get("min", 1), solutions_storage=storage)
+    if r1 is None:
+        return
+    kept, copy1, n_first = r1.raw3, r1[3].copy(), len(log["evals"])
+    stored_first = {int(k): np.array(v, dtype=float).copy() for k, v in storage.items()}
+    observed = {}
+    for ev in log["evals"]:
+        observed[ev["npts"]] = ev["result"]          # last evaluation with that point count (what the dict keeps)
+    bad = [(k, v, observed.get(k)) for k, v in stored_first.items() if k not in observed or not np.array_equal(v, observed[k])]
+    ctx.check("B.report.stable", not bad and len(stored_first) == len(observed), S_PERFORM, st + "-solutions-storage",
+              "solutions_storage after the run (points, stored, observed after that evaluation): %s; %d entries for %d distinct point counts"
+              % (bad[:3], len(stored_first), len(observed)))
+    with ctx.guard("B.report.stable", S_CONTINUE, st + "-raises"):
+        r2 = dc.continue_adaptive(s, case["tol"], case["max"], case.get("min", 1))
+    if r2 is None:
+        return
+    ok = np.array_equal(np.asarray(kept, dtype=float), copy1)
+    ctx.check("B.report.stable", ok, S_CONTINUE, st + "-live-result",
+              "array returned at the first stop was %s, after continuing (%d more evaluations) the same object reads %s"
+              % (copy1, len(log["evals"]) - n_first, np.asarray(kept, dtype=float)))
+    # entries written before the continuation must not have changed either
+    bad = [(k, v, np.array(storage[k], dtype=float)) for k, v in stored_first.items()
+           if k in storage and k not in [e["npts"] for e in log["evals"][n_first:]] and not np.array_equal(v, np.array(storage[k], dtype=float))]
+    ctx.check("B.report.stable", not bad, S_CONTINUE, st + "-solutions-storage-after-continue",
+              "solutions_storage entries written before the continuation changed (points, before, after): %s" % bad[:3])
+
+
+def check_standard_stability(ctx, case):
+    dc = _dc()
+    s, _, f = dc.build(case["cfg"], case["comps"], None)
+    with ctx.guard("B.report.stable", S_STD, "standard-raises"):
+        with quiet():
+            _, _, kept = s.perform_operation(case["lmin"], case["lmax"])
+            copy1 = np.array(kept, dtype=float).copy()
+            s.perform_operation(case["lmin"], case["lmax"] + 1)
+        ctx.check("B.report.stable", np.array_equal(np.asarray(kept, float), copy1), S_STD, "standard-live-result",
+                  "result of the first perform_operation %s reads %s after a second one on the same instance" % (copy1, np.asarray(kept, float)))
+        with quiet():
+            _, _, again = s.perform_operation(case["lmin"], case["lmax"])
+        ctx.check("B.report.stable", eq(again, copy1), S_STD, "standard-rerun", "same levels again on the same instance: %s vs %s" % (np.asarray(again, float), copy1))
 
 
 # ---------------------------------------------------------------------------------------------------------
@@ -208,7 +267,7 @@ def gen_standard(ctx):
                 for vector in ((gi + lmax) % 2 == 0,) if quick else (False, True):
                     a, b = box(ctx, d, (gi + lmin) % 2 == 1)
                     yield {"kind": "standard", "cfg": {"strategy": "standard", "a": a, "b": b, "grid": g},
-                           "comps": pick_comps(ctx, d, vector), "lmin": lmin, "lmax": lmax}
+                           "comps": pick_comps(ctx, d, vector), "lmin": lmin, "lmax": lmax, "stability": lmax <= 3 and d <= 2}
 
 
 def gen_dimadapt(ctx):
@@ -233,7 +292,7 @@ def adaptive_configs(ctx):
     """(cfg, lmin, lmax) of the spatially adaptive strategies, seeded selection."""
     rng = ctx.rng
     out = []
-    n_dw, n_es = (10, 11) if ctx.quick() else (40, 42)
+    n_dw, n_es = (8, 9) if ctx.quick() else (40, 42)
     for i in range(n_dw):
         d = 2 if i % 3 != 2 else 3
         a, b = box(ctx, d, i % 4 == 3)
@@ -294,6 +353,10 @@ def gen_adaptive(ctx):
             froms = froms[:1] + froms[-1:] if len(froms) > 1 else froms
         for j in froms:
             yield dict(base, tol=-1.0, resume_from=npts[j] - 1, max=npts[last] - 1, min=1, stop_index=last)
+        # report stability: stop early (with solutions_storage), keep the returned array, continue to the last stop
+        if froms:
+            j = froms[len(froms) // 2]
+            yield dict(base, kind="stability", tol=-1.0, first=npts[j] - 1, max=npts[last] - 1, min=1, stop_index=last)
 
 
 def dispatch(ctx, case):
@@ -302,6 +365,10 @@ def dispatch(ctx, case):
             scout(case, max_refinements=8 if len(case["cfg"]["a"]) == 2 else 5)
     elif case["kind"] == "standard":
         check_standard(ctx, case)
+        if case.get("stability"):
+            check_standard_stability(ctx, case)
+    elif case["kind"] == "stability":
+        check_stability(ctx, case)
     elif case["kind"] == "dimadapt":
         check_dimadapt(ctx, case)
     else:
@@ -322,7 +389,13 @@ def anchor_cases():
     dw = {"strategy": "dimwise", "a": [0.0, 0.0], "b": [1.0, 1.0], "grid": {"type": "GlobalTrapezoidal", "boundary": True}, "norm": "inf", "opts": {"version": 6}}
     es = {"strategy": "extend", "a": [0.0, 0.0], "b": [1.0, 1.0], "grid": {"type": "Trapezoidal", "boundary": True}, "norm": "inf",
           "opts": {"version": 0, "number_of_refinements_before_extend": 2}}
-    return [{"kind": "adaptive", "cfg": dw, "comps": comps, "lmin": 1, "lmax": 2, "ref": None, "tol": -1.0, "max": 60, "min": 1, "stop_index": 4},
+    lag = {"strategy": "extend", "a": [0.0, 0.0], "b": [1.0, 1.0], "grid": {"type": "Lagrange", "boundary": True, "p": 2}, "norm": "inf",
+           "opts": {"version": 0, "automatic_extend_split": True}}
+    return [{"kind": "stability", "cfg": dw, "comps": comps, "lmin": 1, "lmax": 2, "ref": None, "tol": -1.0, "first": 30, "max": 90, "min": 1, "stop_index": 6},
+            {"kind": "stability", "cfg": es, "comps": comps, "lmin": 1, "lmax": 2, "ref": None, "tol": -1.0, "first": 30, "max": 90, "min": 1, "stop_index": 5},
+            # high-order grid + automatic extend/split decision: the parent-estimation branches of the error estimate run before areas are replaced
+            {"kind": "adaptive", "cfg": lag, "comps": [["corner", [3.0, 1.0]]], "lmin": 1, "lmax": 2, "ref": None, "tol": -1.0, "max": 250, "min": 1, "stop_index": 5},
+            {"kind": "adaptive", "cfg": dw, "comps": comps, "lmin": 1, "lmax": 2, "ref": None, "tol": -1.0, "max": 60, "min": 1, "stop_index": 4},
             {"kind": "adaptive", "cfg": es, "comps": comps, "lmin": 1, "lmax": 2, "ref": None, "tol": -1.0, "max": 60, "min": 1, "stop_index": 3},
             {"kind": "adaptive", "cfg": es, "comps": comps, "lmin": 1, "lmax": 2, "ref": None, "tol": -1.0, "resume_from": 20, "max": 120, "min": 1, "stop_index": 7}]
 
